@@ -382,7 +382,16 @@ func (idx *MergeSetIndex) bloomFilterEnable(tablePath string) (bool, error) {
 	if os.IsNotExist(err) {
 		return false, nil
 	}
-	return idx.config.BloomFilterEnabled, nil
+	if !idx.config.BloomFilterEnabled {
+		// While the filter is switched off the series created are not added to it: from now on the stored filter is stale,
+		// and a later open with the filter switched on must not trust it (a negative answer skips the table lookup).
+		// Without the directory that open keeps the filter off, like for an index that never had one.
+		if err = fileops.RemoveAll(bfDir, fileops.FileLockOption(*idx.lock)); err != nil {
+			return false, err
+		}
+		return false, nil
+	}
+	return true, nil
 }
 
 func (idx *MergeSetIndex) flushBloomFilter() {
